@@ -672,11 +672,16 @@ class AIPDDLConverter:
 
         up_action = InstantaneousAction(action.name, **action_parameters)
 
-        up_action.add_precondition(
-            self._expression_converter.convert_expression(
-                action.precondition, action_parameters_expression, {}
+        # the ai planning parser represents the empty precondition `()` as an
+        # empty disjunction; it means "no precondition", not "never applicable"
+        if not (
+            isinstance(action.precondition, Or) and not action.precondition.operands
+        ):
+            up_action.add_precondition(
+                self._expression_converter.convert_expression(
+                    action.precondition, action_parameters_expression, {}
+                )
             )
-        )
 
         for e in self._convert_effects(
             action_parameters_expression, action.effect, action.name
